@@ -164,8 +164,8 @@ impl Reducer<State, Aid> for SReducer {
     fn reduce(&self, state: &State, action: &Aid) -> DispatchOp<State, Aid> {
         self.ctx.gate("reduce", self.sc.id, *action);
         let (d, e) = self.sc.table.get(action).cloned().unwrap_or((self.sc.default_dispatch, None));
-        let mut ns = state.clone();
-        ns.push((self.sc.id, *action));
+        let mut ns = State(state.0.clone());
+        ns.0.push((self.sc.id, *action));
         self.ctx.log(format!(
             "RED {} {} {} {} {}",
             state_text(state),
@@ -325,7 +325,7 @@ pub struct SSelector {
 
 impl Selector<State, u32> for SSelector {
     fn select(&self, state: &State) -> u32 {
-        match state.last() {
+        match state.0.last() {
             None => 0,
             Some((_, a)) => self.table.get(a).copied().unwrap_or(0),
         }
@@ -346,7 +346,7 @@ pub fn make_middleware(
 
 /// build the store of a scenario through the public builder
 pub fn build_store(ctx: &Arc<RunCtx>, sc: &Scenario) -> Store {
-    let mut b = rs_store::StoreBuilder::new(Vec::new())
+    let mut b = rs_store::StoreBuilder::new(State::default())
         .with_name(name_of(sc.name))
         .with_capacity(sc.cap)
         .with_policy(policy_of(sc.pol));
